@@ -5,6 +5,7 @@ package main
 
 import (
 	"fmt"
+	"math"
 	"math/rand"
 	"strings"
 )
@@ -329,10 +330,20 @@ func (g *storeGen) round() {
 		g.emit("pstore")
 	}
 	if g.r.Intn(100) < g.prof.pPrune {
-		// prune version: one of the saved versions (or one in between), never above the current version
-		v := g.saved[g.r.Intn(len(g.saved))]
+		// prune version: half of the time a saved version (or one below it); otherwise from the whole boundary set of
+		// the int64 parameter: negative, 0, 1, the first saved version and its neighbours, every saved version +-1,
+		// beyond the last saved version, MaxInt64
+		v := int64(g.saved[g.r.Intn(len(g.saved))])
 		if g.r.Intn(4) == 0 && v > 1 {
 			v--
+		}
+		if g.r.Intn(100) < 50 {
+			first, last := int64(g.saved[0]), int64(g.saved[len(g.saved)-1])
+			bs := []int64{-1, -1 - int64(g.r.Intn(1000)), math.MinInt64, 0, 1, first - 1, first, first + 1, last + 1, last + 1 + int64(g.r.Intn(5)), math.MaxInt64, math.MaxInt64 - 1}
+			for _, sv := range g.saved {
+				bs = append(bs, int64(sv)-1, int64(sv)+1)
+			}
+			v = bs[g.r.Intn(len(bs))]
 		}
 		if g.r.Intn(100) < 30 {
 			g.emit("crash-prune %d %d", v, g.r.Intn(3))
